@@ -79,3 +79,51 @@ func CumulativeTest(x []bool, forward bool) (float64, float64) {
 	}
 	return P, P
 }
+
+// CumulativeTest_alt1: the direction test taken out of the walk (loop unswitching): an ascending walk over x[i] when
+// forward, the same walk over x[n-1-i] otherwise; S and Z evolve by the same transfer in either loop.
+func CumulativeTest_alt1(x []bool, forward bool) (float64, float64) {
+	n := len(x)
+	S := 0
+	Z := 0
+	if forward {
+		for i := 0; i < n; i++ {
+			if x[i] {
+				S++
+			} else {
+				S--
+			}
+			a := S
+			if !(a > 0) {
+				a = -a
+			}
+			if !(Z > a) {
+				Z = a
+			}
+		}
+	} else {
+		for i := 0; i < n; i++ {
+			if x[n-1-i] {
+				S++
+			} else {
+				S--
+			}
+			a := S
+			if !(a > 0) {
+				a = -a
+			}
+			if !(Z > a) {
+				Z = a
+			}
+		}
+	}
+	P := 1.0
+	rn := math.Sqrt(float64(n))
+	for k := (-n/Z + 1) / 4; k <= (n/Z-1)/4; k++ {
+		P -= phi(float64((4*k+1)*Z)/rn) - phi(float64((4*k-1)*Z)/rn)
+	}
+	for k := (-n/Z - 3) / 4; k <= (n/Z-1)/4; k++ {
+		P += phi(float64((4*k+3)*Z)/rn) - phi(float64((4*k+1)*Z)/rn)
+	}
+	return P, P
+}
